@@ -85,3 +85,30 @@ def c20(ctx, replay):
                     "distinct keys the mapping must change",
                assumptions=["UTF-8 decoding of Go's range loop is transcribed in Utf8.tla (RuneAt)",
                             "empty key left open", "reserved-word collisions of sanitised names are out of scope (DESIGN 6/C20)"])
+
+
+@prop("C03")
+def c03(ctx, replay):
+    def nontrivial(scns):
+        # distinct (frames, fault) pairs with a byte-level fault or a corrupt frame
+        seen = set()
+        for sid, lines in scns:
+            i = json.loads(lines[0])["in"]
+            if i["fault"]["kind"] != "none" or any(f["raw"] or f["typ"] == 3 for f in i["frames"]):
+                seen.add(json.dumps([i["frames"], i["fault"]], sort_keys=True))
+        return len(seen)
+    return std(ctx, "C03",
+               mc=[dict(name="decoder", module="MC_Decoder",
+                        consts=dict(MaxFrames=T(ctx, 2, 3), PoolSet=V.tla_str(T(ctx, "quick", "full"))),
+                        invariants=["TypeOK", "MatchesDecode", "PrefixAlways"])],
+               harness_cmd="decoder", trace_module="Trace_Decoder", nrand=T(ctx, 3000, 40000), replay=replay,
+               nontrivial=nontrivial, exhaustive=True,
+               rule="step 1: streamIter.parseNext as a state machine over a transport delivering arbitrary fragments "
+                    "(chunk sizes 1,3,7,64 chosen by TLC at every read) with a cut or transport error at every byte offset and "
+                    "daemon-error / corrupt frames at every index, checked against Decode(frames, fault); every (frames, fault) "
+                    "pair is exported x 5 read-size patterns x 3 consumers (ParseLog, Engine.Eval log query, range aggregation) "
+                    "and replayed on the real code together with seeded random streams (up to 80 frames, messages up to 300 "
+                    "arbitrary bytes); non-trivial = distinct (frames, fault) with a fault or a corrupt frame",
+               assumptions=["RFC3339Nano rendering of the frame timestamps by time.Format is trusted (harness side)",
+                            "error text left open; records compared up to the first fault",
+                            "the fake daemon's reader returns EOF/err persistently after the fault"])
